@@ -6,10 +6,11 @@ import gen as G
 
 class C20(Prop):
     pid = "C20"
-    fields = {"obs": ["outcome", "errors", "logs", "writes", "line"], "fs": "*", "counters": "*"}
+    fields = {"obs": ["outcome", "errors", "logs", "writes", "line"], "fs": "*", "counters": "*",
+              "clean": ["ofiles", "otests", "writes", "printed", "passed", "failed", "added", "updated", "skipped", "removed"], "readsum": "*"}
     rule = ("long mixed histories over all five entry points (passes, creations, updates, diff failures, invalid input, "
             "matcher failures, missing snapshots on CI, calls without values, snaps.Skip), two processes with different modes, "
-            "counters read after each process; the oracle tallies the signals received by the scripted testingT and compares "
+            "counters read and Clean run (its exact stdout read back by the verified reader, colours on or off) after each process; the oracle tallies the signals received by the scripted testingT and compares "
             "them with the library's counters; non-trivial = at least three different outcomes occurred")
     outside_model = "concurrent counter increments (mutex) are a runtime matter; the printed summary is covered with Clean (C09)"
     trusted = []
@@ -20,6 +21,10 @@ class C20(Prop):
         for i in range(n):
             r = rng.fork()
             ops = [G.op_newconfig(dir=b"d", upd=r.choice([None, None, True, False]))]
+            if r.chance(1, 3):
+                # the same stale id in both addressed files: each occurrence is judged (and listed) on its own
+                stale = b"\n[TestStale - 1]\nleft over\n---\n"
+                ops = [G.op_putfile(b"def/zz_verif_trace_test.snap", stale), G.op_putfile(b"d/zz_verif_trace_test.snap", stale)] + ops
             prog = G.gen_program(r, handles=(0, 1))
             body = G.run_program(r, prog, r.range(1, 2))
             # sprinkle special calls
@@ -43,8 +48,11 @@ class C20(Prop):
             body1 = G.interleave(r, [body, extra])
             env2 = r.choice(G.ENVS)
             prog2 = G.mutate_program(r, prog)
-            ops += body1 + [{"op": "counters"}, {"op": "newprocess"}, ops[0], G.op_setenv(env2[0], env2[1])]
-            ops += G.interleave(r, [G.run_program(r, prog2, 1), [dict(e) for e in extra]]) + [{"op": "counters"}]
+            def clean_op():
+                return {"op": "clean", "sort": r.chance(1, 2), "count": 1, "colour": r.chance(1, 2)}
+            cfg0 = next(o for o in ops if o["op"] == "newconfig")
+            ops += body1 + [{"op": "counters"}, {"op": "dumpfs"}, clean_op(), {"op": "dumpfs"}, {"op": "newprocess"}, cfg0, G.op_setenv(env2[0], env2[1])]
+            ops += G.interleave(r, [G.run_program(r, prog2, 1), [dict(e) for e in extra]]) + [{"op": "counters"}, {"op": "dumpfs"}, clean_op(), {"op": "dumpfs"}]
             cases.append({"ci": False, "updvar": r.choice(["unset", "true"]), "colour": False, "ops": ops, "meta": {}})
         # file-system failures (outside the model: "FS calls succeed"): the snapshot directory cannot be created
         for i in range(n // 10):
@@ -73,7 +81,29 @@ class C20(Prop):
         it = iter(ops)
         opl = [o for o in ops if o[0] not in ("init", "dumpfs")]
         ri = 0
-        res = [r for r in results if r[0] in ("obs", "counters")]
+        res = [r for r in results if r[0] in ("obs", "counters", "clean")]
+        # "lists exactly the items Clean judged obsolete": when the summary says `removed`, the listed tests are exactly
+        # the entries that disappeared from the snapshot files (as a multiset: one line per removed entry)
+        from C09 import parse_entries
+        seq = [r for r in results if r[0] in ("fs", "clean")]
+        for a, c_, b in zip(seq, seq[1:], seq[2:]):
+            if a[0] == "fs" and c_[0] == "clean" and b[0] == "fs" and c_[2].get("removed") == "1":
+                gone = []
+                for p_, content in a[2].items():
+                    if content == "-" or not unhx(p_).endswith(b".snap"):
+                        continue
+                    if p_ not in b[2]:
+                        continue          # the whole file was removed: listed under files
+                    before = [i for i, _ in parse_entries(unhx(content))]
+                    after = [i for i, _ in parse_entries(unhx(b[2][p_]))] if b[2][p_] != "-" else []
+                    for i in before:
+                        if i in after:
+                            after.remove(i)
+                        else:
+                            gone.append(i)
+                listed = [] if c_[2]["otests"] == "~" else [unhx(x) for x in c_[2]["otests"].split(",")]
+                if sorted(gone) != sorted(listed):
+                    fails.append({"msg": "Clean removed the entries %s but its summary lists %s" % (sorted(gone), sorted(listed))})
         for name, kv in opl:
             if ri >= len(res):
                 break
@@ -85,6 +115,13 @@ class C20(Prop):
                 got = {k: int(v) for k, v in o.items()}
                 if got != tally:
                     fails.append({"msg": "counters %s differ from the signals received by the test: %s" % (got, tally)})
+                continue
+            if name == "clean":
+                if kind != "clean":
+                    return []
+                shown = {"erred": int(o["failed"]), "added": int(o["added"]), "updated": int(o["updated"]), "passed": int(o["passed"]), "skipped": int(o["skipped"])}
+                if shown != tally:
+                    fails.append({"msg": "the Snapshot Summary shows %s, the signals received by the tests add up to %s" % (shown, tally)})
                 continue
             if kind != "obs":
                 return []
